@@ -121,7 +121,7 @@ class Context(object):
 
     # -- harness API ----------------------------------------------------
     def _is_ready(self, src):
-        if src.kind == 'idle':
+        if src.kind in ('idle', 'dbus-signal'):
             return True
         if src.kind == 'timeout':
             return CLOCK.now_ms >= src.due
